@@ -23,9 +23,13 @@ def fail(node, why):
     raise Unsupported("%s (line %s: %s)" % (why, getattr(node, "lineno", "?"), ast.unparse(node)[:80] if node is not None else ""))
 
 
+COQ_RESERVED = {"match", "end", "fix", "let", "in", "with", "fun", "if", "then", "else", "return", "at", "as", "using", "where", "for",
+                "forall", "exists", "Type", "Set", "Prop", "struct", "cofix", "exists2"}
+
+
 def dotted(node):
     if isinstance(node, ast.Name):
-        return node.id
+        return node.id + "_" if node.id in COQ_RESERVED else node.id
     if isinstance(node, ast.Attribute):
         b = dotted(node.value)
         return None if b is None else b + "." + node.attr
@@ -34,10 +38,12 @@ def dotted(node):
 
 # ---------------------------------------------------------------- expressions
 class Env:
-    def __init__(self, table, consts):
+    def __init__(self, table, consts, calls=None, attrs=None):
         self.table = dict(table)      # dotted path -> (coq term, type)
         self.consts = dict(consts)
         self.locals = {}              # python local -> type
+        self.calls = dict(calls or {})   # function name -> (arity, lambda coq_args -> (term, type))
+        self.attrs = dict(attrs or {})   # (type, attribute path) -> (lambda base_term -> term, type)
 
 
 def expr(e, env):
@@ -50,8 +56,19 @@ def expr(e, env):
             return env.table[d]
         if d in env.consts:
             return env.consts[d]
+        head, _, path = d.partition(".")
+        if head in env.locals and (env.locals[head], path) in env.attrs:
+            f, ty = env.attrs[(env.locals[head], path)]
+            return f(head), ty
         fail(e, "unknown name")
+    if isinstance(e, ast.Call):
+        fn = dotted(e.func)
+        if fn in env.calls and not e.keywords and len(e.args) == env.calls[fn][0]:
+            return env.calls[fn][1]([expr(a, env) for a in e.args], e)
+        fail(e, "call")
     if isinstance(e, ast.Constant):
+        if e.value is None:
+            return "None", "NONE"
         if isinstance(e.value, bool):
             return ("true" if e.value else "false"), "B"
         if isinstance(e.value, int):
@@ -79,12 +96,23 @@ def expr(e, env):
         b, tb = expr(e.right, env)
         ops = {ast.BitAnd: ("N", "N.land"), ast.BitOr: ("N", "N.lor"), ast.BitXor: ("N", "N.lxor"),
                ast.Sub: ("Z", "Z.sub"), ast.Add: ("Z", "Z.add"), ast.Mod: ("Z", "Z.modulo"), ast.FloorDiv: ("Z", "Z.div"), ast.Mult: ("Z", "Z.mul")}
+        if isinstance(e.op, ast.BitOr) and ta == "Z" and tb == "Z":
+            return "(Z.lor %s %s)" % (a, b), "Z"
         for k, (ty, f) in ops.items():
             if isinstance(e.op, k):
                 if ta != ty or tb != ty:
                     fail(e, "operand types %s %s for %s" % (ta, tb, f))
                 return "(%s %s %s)" % (f, a, b), ty
         fail(e, "binary operator")
+    if isinstance(e, ast.BoolOp) and isinstance(e.op, ast.And) and len(e.values) == 2 and isinstance(e.values[0], ast.Compare) \
+            and isinstance(e.values[0].ops[0], ast.IsNot) and isinstance(e.values[0].left, ast.Name) \
+            and env.locals.get(e.values[0].left.id, "").startswith("OPT "):
+        x = e.values[0].left.id
+        saved = env.locals[x]
+        env.locals[x] = saved[4:]
+        inner = truthy(e.values[1], env)
+        env.locals[x] = saved
+        return "(match %s with Some %s => %s | None => false end)" % (x, x, inner), "B"
     if isinstance(e, ast.BoolOp):
         parts = [truthy(v, env) for v in e.values]
         op = " && " if isinstance(e.op, ast.And) else " || "
@@ -110,6 +138,11 @@ def expr(e, env):
                 alts.append(eq(a, ta, b, tb, e))
             t = "(" + " || ".join(alts) + ")"
             return (t if isinstance(op, ast.In) else "(negb %s)" % t), "B"
+        if isinstance(op, (ast.Is, ast.IsNot)):
+            if not (isinstance(e.comparators[0], ast.Constant) and e.comparators[0].value is None and ta.startswith("OPT ")):
+                fail(e, "'is' is only supported as a None test on an optional value")
+            t = "(match %s with None => true | Some _ => false end)" % a
+            return (t if isinstance(op, ast.Is) else "(negb %s)" % t), "B"
         b, tb = expr(e.comparators[0], env)
         if isinstance(op, ast.Eq):
             return eq(a, ta, b, tb, e), "B"
@@ -160,11 +193,68 @@ def always_returns(stmts):
     return False
 
 
-def block(stmts, env, ret):
-    """ret: function (ast expr or None) -> coq term of the function's result type"""
+OPT_ANNOTATIONS = {"Optional[TCPMatch]": "OPT TMATCH", "Optional[HTTPRecord]": "OPT HTTPREC"}
+COQ_TYPES = {"Z": "Z", "N": "N", "B": "bool", "MT": "mtype", "TCPREC": "tcp_rec", "MTUREC": "mtu_rec", "HTTPREC": "rec", "TMATCH": "(mtype * tcp_rec)"}
+
+
+def coq_type(ty):
+    return "(option %s)" % coq_type(ty[4:]) if ty.startswith("OPT ") else COQ_TYPES[ty]
+
+
+def assigned(stmts):
+    out = []
+    for n in stmts:
+        for m in ast.walk(n):
+            if isinstance(m, (ast.Assign, ast.AugAssign, ast.AnnAssign)):
+                t = m.targets[0] if isinstance(m, ast.Assign) else m.target
+                if isinstance(t, ast.Name) and t.id not in out:
+                    out.append(t.id)
+    return out
+
+
+def block(stmts, env, ret, fall=None):
+    """ret: function (ast expr or None) -> coq term of the function's result type; fall: term to use when control
+    reaches the end of the block (loop bodies), or None when that is an error"""
     if not stmts:
-        fail(None, "control reaches the end of the function without return")
+        if fall is None:
+            fail(None, "control reaches the end of the function without return")
+        return fall
     s, rest = stmts[0], stmts[1:]
+    if isinstance(s, ast.Continue):
+        if fall is None:
+            fail(s, "continue outside a loop")
+        return fall
+    if isinstance(s, ast.For):
+        if s.orelse or not isinstance(s.target, ast.Name):
+            fail(s, "for loop shape")
+        it, ity = expr(s.iter, env)
+        if not ity.startswith("LIST "):
+            fail(s, "iteration over a non-list")
+        elt = ity[5:]
+        carried = [v for v in assigned(s.body) if v in env.locals]
+        args = " ".join("(%s : %s)" % (v, coq_type(env.locals[v])) for v in carried)
+        call = "loop_rest" + "".join(" " + v for v in carried)
+        saved = dict(env.locals)
+        nil_case = block(rest, env, ret, fall)
+        env.locals = dict(saved)
+        env.locals[s.target.id] = elt
+        cons_case = block(list(s.body), env, ret, "(loop %s)" % call)
+        env.locals = saved
+        return ("((fix loop (loop_list : list %s) %s {struct loop_list} := match loop_list with\n | [] => %s\n | %s :: loop_rest => %s\n end) %s%s)"
+                % (coq_type(elt), args, nil_case, s.target.id, cons_case, it, "".join(" " + v for v in carried)))
+    # 'if X is None: <block that never falls through>'  refines X to its content afterwards
+    if isinstance(s, ast.If) and not s.orelse and isinstance(s.test, ast.Compare) and isinstance(s.test.ops[0], ast.Is) \
+            and isinstance(s.test.left, ast.Name) and env.locals.get(s.test.left.id, "").startswith("OPT ") \
+            and isinstance(s.test.comparators[0], ast.Constant) and s.test.comparators[0].value is None \
+            and (always_returns(s.body) or isinstance(s.body[-1], ast.Continue)):
+        x = s.test.left.id
+        saved = dict(env.locals)
+        none_case = block(list(s.body), env, ret, fall)
+        env.locals = dict(saved)
+        env.locals[x] = saved[x][4:]
+        some_case = block(rest, env, ret, fall)
+        env.locals = saved
+        return "(match %s with\n | None => %s\n | Some %s => %s\n end)" % (x, none_case, x, some_case)
     if isinstance(s, ast.Expr) and isinstance(s.value, ast.Constant) and isinstance(s.value.value, str):
         return block(rest, env, ret)                                        # docstring
     if isinstance(s, ast.Return):
@@ -174,11 +264,22 @@ def block(stmts, env, ret):
         if not isinstance(tgt, ast.Name) or (isinstance(s, ast.Assign) and len(s.targets) != 1):
             fail(s, "assignment target")
         t, ty = expr(s.value, env)
+        ann = getattr(s, "annotation", None)
+        if ty == "NONE":
+            if dotted(tgt) in env.locals and env.locals[dotted(tgt)].startswith("OPT "):
+                ty = env.locals[dotted(tgt)]
+            elif ann is not None and ast.unparse(ann) in OPT_ANNOTATIONS:
+                ty = OPT_ANNOTATIONS[ast.unparse(ann)]
+            else:
+                fail(s, "None assigned to a variable of unknown optional type")
+        elif dotted(tgt) in env.locals and env.locals[dotted(tgt)] == "OPT " + ty:
+            t, ty = "(Some %s)" % t, "OPT " + ty
+        name = dotted(tgt)
         saved = dict(env.locals)
-        env.locals[tgt.id] = ty
-        body = block(rest, env, ret)
+        env.locals[name] = ty
+        body = block(rest, env, ret, fall)
         env.locals = saved
-        return "(let %s := %s in\n %s)" % (tgt.id, t, body)
+        return "(let %s := %s in\n %s)" % (name, t, body)
     if isinstance(s, ast.AugAssign):
         if not isinstance(s.target, ast.Name) or s.target.id not in env.locals:
             fail(s, "augmented assignment target")
@@ -203,13 +304,14 @@ def block(stmts, env, ret):
             t = "(N.lor %s %s)" % (x, a)
         else:
             fail(s, "augmented assignment operator")
-        return "(let %s := %s in\n %s)" % (x, t, block(rest, env, ret))
+        return "(let %s := %s in\n %s)" % (x, t, block(rest, env, ret, fall))
     if isinstance(s, ast.If):
         c = truthy(s.test, env)
         saved = dict(env.locals)
-        a = block(list(s.body) + ([] if always_returns(s.body) else rest), env, ret)
+        ends = always_returns(s.body) or (bool(s.body) and isinstance(s.body[-1], ast.Continue))
+        a = block(list(s.body) + ([] if ends else rest), env, ret, fall)
         env.locals = dict(saved)
-        b = block(list(s.orelse) + rest, env, ret) if (s.orelse or rest) else fail(s, "if without continuation")
+        b = block(list(s.orelse) + rest, env, ret, fall) if (s.orelse or rest or fall is not None) else fail(s, "if without continuation")
         env.locals = saved
         return "(if %s\n then %s\n else %s)" % (c, a, b)
     fail(s, "statement")
@@ -455,8 +557,109 @@ def gen_gates(repo, consts):
     return "Definition gen_should_fingerprint (frag : bool) (ty : Z) : bool :=\n  %s." % " && ".join(e2(v) for v in r.values)
 
 
+def gen_valid(repo, consts):
+    out = []
+    table = {"packet.should_fingerprint": ("(gen_should_fingerprint frag ty)", "B"), "packet.tcp.type": ("ty", "Z"),
+             "packet.tcp.options.mss": ("mss", "Z")}
+    for path, fn, args in (("pyp0f/fingerprint/tcp.py", "valid_for_tcp_fingerprint", "(frag : bool) (ty : Z)"),
+                           ("pyp0f/fingerprint/mtu.py", "valid_for_mtu_fingerprint", "(frag : bool) (ty mss : Z)"),
+                           ("pyp0f/fingerprint/uptime.py", "valid_for_uptime_fingerprint", "(frag : bool) (ty : Z)")):
+        f = find_function(ast.parse(open(os.path.join(repo, path)).read()), fn)
+        body = [s for s in f.body if not (isinstance(s, ast.Expr) and isinstance(s.value, ast.Constant))]
+        if len(body) != 1 or not isinstance(body[0], ast.Return) or [a.arg for a in f.args.args] != ["packet"]:
+            fail(f, "%s shape" % fn)
+        env = Env(table, consts)
+        out.append("Definition gen_%s %s : bool :=\n  %s." % (fn, args, truthy(body[0].value, env)))
+    # MTUPacketSignature.from_mss
+    f = find_function(ast.parse(open(os.path.join(repo, "pyp0f/net/signatures/mtu.py")).read()), "from_mss", cls="MTUPacketSignature")
+    body = [s for s in f.body if not (isinstance(s, ast.Expr) and isinstance(s.value, ast.Constant))]
+    if not (len(body) == 2 and isinstance(body[0], ast.If) and len(body[0].body) == 1 and isinstance(body[0].body[0], ast.Raise) and not body[0].orelse
+            and dotted(body[0].body[0].exc.func) == "PacketError" and isinstance(body[1], ast.Return)
+            and isinstance(body[1].value, ast.Call) and dotted(body[1].value.func) == "cls" and len(body[1].value.args) == 1):
+        fail(f, "from_mss shape")
+    env = Env({}, consts)
+    env.locals["mss"] = "Z"
+    env.locals["ip_version"] = "Z"
+    v, tv = expr(body[1].value.args[0], env)
+    out.append("Definition gen_mtu_from_mss (mss ip_version : Z) : option Z :=\n  if %s then None (* raise PacketError *) else Some %s." % (truthy(body[0].test, env), v))
+    # mtu_signatures_match
+    f = find_function(ast.parse(open(os.path.join(repo, "pyp0f/fingerprint/mtu.py")).read()), "mtu_signatures_match")
+    body = [s for s in f.body if not (isinstance(s, ast.Expr) and isinstance(s.value, ast.Constant))]
+    env = Env({"signature.mtu": ("sig_mtu", "Z"), "packet_signature.mtu": ("pkt_mtu", "Z")}, consts)
+    if len(body) != 1 or not isinstance(body[0], ast.Return):
+        fail(f, "mtu_signatures_match shape")
+    out.append("Definition gen_mtu_signatures_match (sig_mtu pkt_mtu : Z) : bool :=\n  %s." % truthy(body[0].value, env))
+    return "\n".join(out)
+
+
+def opt_ret(want):
+    def ret(v, env):
+        if v is None:
+            return "None"
+        t, ty = expr(v, env)
+        if ty == "NONE":
+            return "None"
+        if ty == "OPT " + want:
+            return t
+        if ty == want:
+            return "(Some %s)" % t
+        fail(v, "return type %s (expected %s)" % (ty, want))
+    return ret
+
+
+def gen_loops(repo, consts):
+    out = []
+    # find_tcp_match
+    f = find_function(ast.parse(open(os.path.join(repo, "pyp0f/fingerprint/tcp.py")).read()), "find_tcp_match")
+    calls = {"tcp_signatures_match": (3, lambda a, e: ("(gen_tcp_signatures_match md %s p)" % a[0][0], "OPT MT")),
+             "TCPMatch": (2, lambda a, e: ("(%s, %s)" % (a[0][0], a[1][0]), "TMATCH") if (a[0][1], a[1][1]) == ("MT", "TCPREC") else fail(e, "TCPMatch argument types")),
+             "options.database.iter_values": (2, lambda a, e: ("recs", "LIST TCPREC"))}
+    attrs = {("TCPREC", "signature"): (lambda b: "(r_sig %s)" % b, "SIG"), ("TCPREC", "is_generic"): (lambda b: "(r_generic %s)" % b, "B"),
+             ("TMATCH", "record.label.is_user_app"): (lambda b: "(r_userapp (snd %s))" % b, "B")}
+    table = {"packet_signature": ("p", "PSIG"), "options": ("md", "OPTIONS"), "TCPRecord": ("tt", "CLS"), "direction": ("tt", "DIR")}
+    env = Env(table, consts, calls, attrs)
+    out.append("Definition gen_find_tcp_match (md : Z) (recs : list tcp_rec) (p : pkt_sig) : option (mtype * tcp_rec) :=\n %s." % block(f.body, env, opt_ret("TMATCH")))
+    # find_mtu_match
+    f = find_function(ast.parse(open(os.path.join(repo, "pyp0f/fingerprint/mtu.py")).read()), "find_mtu_match")
+    calls = {"mtu_signatures_match": (2, lambda a, e: ("(gen_mtu_signatures_match %s %s)" % (a[0][0], a[1][0]), "B")),
+             "database.iter_values": (1, lambda a, e: ("recs", "LIST MTUREC"))}
+    attrs = {("MTUREC", "signature"): (lambda b: "(m_mtu %s)" % b, "Z")}
+    env = Env({"packet_signature": ("mtu", "Z"), "MTURecord": ("tt", "CLS")}, consts, calls, attrs)
+    out.append("Definition gen_find_mtu_match (recs : list mtu_rec) (mtu : Z) : option mtu_rec :=\n %s." % block(f.body, env, opt_ret("MTUREC")))
+    # TCPResult.__post_init__: the reported distance
+    f = find_function(ast.parse(open(os.path.join(repo, "pyp0f/fingerprint/results/tcp.py")).read()), "__post_init__", cls="TCPResult")
+    body = [s for s in f.body if not (isinstance(s, ast.Expr) and isinstance(s.value, ast.Constant))]
+    if not (len(body) == 1 and isinstance(body[0], ast.Assign) and dotted(body[0].targets[0]) == "self.distance" and isinstance(body[0].value, ast.IfExp)):
+        fail(f, "TCPResult.__post_init__ shape")
+    ie = body[0].value
+    c = ie.test
+    if not (isinstance(c, ast.BoolOp) and isinstance(c.op, ast.Or) and len(c.values) == 2 and isinstance(c.values[0], ast.Compare)
+            and isinstance(c.values[0].ops[0], ast.Is) and dotted(c.values[0].left) == "self.match"
+            and isinstance(c.values[0].comparators[0], ast.Constant) and c.values[0].comparators[0].value is None):
+        fail(c, "expected 'self.match is None or ...'")
+    calls = {"guess_distance": (1, lambda a, e: ("(gen_guess_distance %s)" % a[0][0], "Z"))}
+    attrs = {("TMATCH", "type"): (lambda b: "(fst %s)" % b, "MT"), ("TMATCH", "record.signature.ttl"): (lambda b: "(s_ttl (r_sig (snd %s)))" % b, "Z")}
+    env = Env({"self.packet_signature.ttl": ("(p_ttl p)", "Z")}, consts, calls, attrs)
+    none_val, tn = expr(ie.body, env)
+
+    class Sub(ast.NodeTransformer):
+        def visit_Attribute(self, n):
+            if dotted(n) == "self.match":
+                return ast.Name(id="the_match", ctx=ast.Load())
+            return self.generic_visit(n)
+    env.locals["the_match"] = "TMATCH"
+    cond2 = truthy(Sub().visit(c.values[1]), env)
+    then2, _ = expr(ie.body, env)
+    else2, te = expr(Sub().visit(ie.orelse), env)
+    if tn != "Z" or te != "Z":
+        fail(ie, "distance type")
+    out.append("Definition gen_distance (m : option (mtype * tcp_rec)) (p : pkt_sig) : Z :=\n  match m with\n  | None => %s\n  | Some the_match => if %s then %s else %s\n  end."
+               % (none_val, cond2, then2, else2))
+    return "\n".join(out)
+
+
 HEADER = """(* GENERATED by translate/py2coq.py from %s -- regenerated on every check run; do not edit. *)
-From PV Require Import Model.Prelude Model.Bits Model.Sig Model.Select.
+From PV Require Import Model.Prelude Model.Bits Model.Sig Model.Select Model.Mtu.
 Definition wtype_eqb (a b : wtype) : bool :=
   match a, b with WNormal, WNormal | WAny, WAny | WMod, WMod | WMss, WMss | WMtu, WMtu => true | _, _ => false end.
 Definition mtype_eqb (a b : mtype) : bool :=
@@ -466,7 +669,7 @@ Definition mtype_eqb (a b : mtype) : bool :=
 
 def main(repo, out):
     consts = common_consts(repo)
-    parts = [HEADER % repo, gen_win_multi(repo, consts), gen_match(repo, consts), gen_round(repo, consts), gen_guess(repo, consts), gen_gates(repo, consts)]
+    parts = [HEADER % repo, gen_win_multi(repo, consts), gen_match(repo, consts), gen_round(repo, consts), gen_guess(repo, consts), gen_gates(repo, consts), gen_valid(repo, consts), gen_loops(repo, consts)]
     open(out, "w").write("\n\n".join(parts) + "\n")
 
 
